@@ -4,7 +4,7 @@
    success-arm names - for names that pass the harvester's final test and are not container heads. *)
 From Coq Require Import String Ascii.
 From Coq Require Import List Arith Lia Bool.
-Require Import TT.Model.Base TT.Model.Str TT.Proofs.StrFacts TT.Model.C07TypeParse TT.Proofs.C07TypeParseProofs TT.Model.Harvest TT.Proofs.HarvestProofs.
+Require Import TT.Model.Base TT.Model.Str TT.Proofs.StrFacts TT.Model.C07TypeParse TT.Proofs.C07TypeParseProofs TT.Model.C07Harvest TT.Proofs.C07HarvestProofs.
 Require Import TT.Model.C07Worklist TT.Model.C07Reach TT.Spec.C07Spec.
 Import ListNotations.
 Local Open Scope list_scope.
@@ -216,42 +216,43 @@ Proof.
 Qed.
 
 (* ---------- without Result heads carrying arguments the success-arm names are all the names ---------- *)
-Lemma ok_leaf y : good y -> forall q, ty_ok q = true -> has_result2 (rty_of q) = false -> kf_result_one_arg (rty_of q) = false ->
+Lemma ok_leaf y : good y -> forall q, ty_ok q = true -> has_result2 (rty_of q) = false ->
   (In y (ok_names q) <-> In y (leaf_names q)).
 Proof.
   intros [Hc Hh]. assert (Hres : y <> L "Result"). { intros ->. vm_compute in Hh. discriminate. }
-  induction q as [segs n angle args IH|t IH|ts IH] using cty_ind'; intros Hok H2 H1.
+  induction q as [segs n angle args IH|t IH|ts IH] using cty_ind'; intros Hok H2.
   - cbn [ty_ok] in Hok. repeat (apply andb_true_iff in Hok as [Hok ?]). destruct segs; [|discriminate].
-    cbn [rty_of app has_result2 kf_result_one_arg] in H2, H1. rewrite join_single in H2, H1.
-    apply orb_false_elim in H2 as [H2a H2b]. apply orb_false_elim in H1 as [H1a H1b].
+    cbn [rty_of app has_result2] in H2. rewrite join_single in H2.
+    apply orb_false_elim in H2 as [H2a H2b].
     assert (Hargs : Forall (fun a => In y (ok_names a) <-> In y (leaf_names a)) args).
     { rewrite forallb_forall in H0. rewrite Forall_forall in *. intros a Ha. apply IH; auto.
-      - apply existsb_false_Forall in H2b. rewrite Forall_forall in H2b. apply H2b. apply in_map; auto.
-      - apply existsb_false_Forall in H1b. rewrite Forall_forall in H1b. apply H1b. apply in_map; auto. }
+      apply existsb_false_Forall in H2b. rewrite Forall_forall in H2b. apply H2b. apply in_map; auto. }
     assert (Hfm : In y (flat_map ok_names args) <-> In y (flat_map leaf_names args)).
     { clear -Hargs. induction Hargs as [|x l Hx Hl IHl]; simpl; [tauto|]. rewrite !in_app_iff. tauto. }
     cbn [ok_names leaf_names]. destruct (str_eqb n (L "Result")) eqn:ER.
-    + apply str_eqb_eq in ER. subst n. destruct args as [|a rest].
+    + apply str_eqb_eq in ER. subst n. destruct args as [|a [|b rest]].
       * simpl. split; [tauto|]. intros [E|[]]. symmetry in E. contradiction.
-      * exfalso. change (is_name (L "Result") "Result") with true in H2a, H1a. rewrite map_length in H2a, H1a.
-        destruct rest; simpl in *; discriminate.
+      * (* one argument (an alias): the success arm is the only arm *)
+        inversion Hargs as [|? ? Ha _]; subst. simpl. rewrite app_nil_r.
+        split; [intros Hy; right; apply Ha; auto|intros [E|Hy]; [symmetry in E; contradiction|apply Ha; auto]].
+      * exfalso. change (is_name (L "Result") "Result") with true in H2a. rewrite map_length in H2a. simpl in H2a. discriminate.
     + simpl. rewrite Hfm. tauto.
-  - cbn [ty_ok rty_of has_result2 kf_result_one_arg ok_names leaf_names] in *. apply IH; auto.
-  - cbn [ty_ok rty_of has_result2 kf_result_one_arg ok_names leaf_names] in *. rewrite forallb_forall in Hok.
-    apply existsb_false_Forall in H2. apply existsb_false_Forall in H1.
+  - cbn [ty_ok rty_of has_result2 ok_names leaf_names] in *. apply IH; auto.
+  - cbn [ty_ok rty_of has_result2 ok_names leaf_names] in *. rewrite forallb_forall in Hok.
+    apply existsb_false_Forall in H2.
     assert (Hargs : Forall (fun a => In y (ok_names a) <-> In y (leaf_names a)) ts).
-    { rewrite Forall_forall in *. intros a Ha. apply IH; auto; [apply H2|apply H1]; apply in_map; auto. }
+    { rewrite Forall_forall in *. intros a Ha. apply IH; auto. apply H2. apply in_map; auto. }
     clear -Hargs. induction Hargs as [|x l Hx Hl IHl]; simpl; [tauto|]. rewrite !in_app_iff. tauto.
 Qed.
 
 (* ---------- type-level agreement of the readers ---------- *)
 Theorem readers_agree q y : ty_ok q = true -> good y ->
   kf_result_ok_has_comma (rty_of q) = false -> kf_tuple_elem_has_comma (rty_of q) = false ->
-  (kf_result_one_arg (rty_of q) = false -> (In y (extract_type_names (tstr q)) <-> In y (leaf_names q))) /\
+  (In y (extract_type_names (tstr q)) <-> In y (leaf_names q)) /\
   (In y (ts_of (tstr q)) <-> In y (ok_names q)).
 Proof.
   intros Hok Hg Hk1 Hk2. destruct (ty_ok_wf q Hok) as [Hw Hh]. pose proof (height_le_len _ Hw) as Hlen. split.
-  - intros Hk3. unfold extract_type_names, tstr.
+  - unfold extract_type_names, tstr.
     assert (Hs : same_set (harvest (S (List.length (tts (rty_of q)))) (tts (rty_of q))) (names (rty_of q))).
     { apply harvest_names; auto. lia. }
     rewrite (Hs y). apply names_leaf; auto.
